@@ -7,6 +7,8 @@ import PintModel.Model.Registry
 import PintModel.Model.Load
 import PintModel.Model.Quantity
 import PintModel.Model.Pi
+import PintModel.Model.EvalTree
+import PintModel.Gen.EvalTables
 import PintModel.Gen.DefaultRegistry
 
 open Lean
@@ -218,6 +220,28 @@ def stepPi (j : Json) : Json :=
   | some "pi", some m => okJ (matJ (Pi.piRows m))
   | _, _ => badJ "pi: f/matrix"
 
+
+/-! ### expression trees (C07) -/
+
+def jToken? (j : Json) : Option Eval.Token := do
+  let a ← jArr? j
+  let k ← jStr? (← a[0]?)
+  let t ← jStr? (← a[1]?)
+  let kind := match k with
+    | "op" => Eval.TokKind.op | "number" => .number | "name" => .name | "end" => .endmarker | _ => .other
+  pure ⟨kind, t⟩
+
+def stepTree (j : Json) : Json :=
+  match (field j "tokens" >>= jArr?) with
+  | some a =>
+    match a.toList.mapM jToken? with
+    | some toks =>
+      (match Eval.buildEvalTree Gen.opPriority toks with
+        | .ok t => okJ (Json.str t.toStr)
+        | .error e => Json.mkObj [("err", Json.str e.toString)])
+    | none => badJ "tree: tokens"
+  | none => badJ "tree: tokens"
+
 /-! ### registry queries (C01, C02, C08) -/
 
 def stepReg (st : DriverState) (op : String) (j : Json) : DriverState × Json :=
@@ -309,6 +333,7 @@ def step (st : DriverState) (j : Json) : DriverState × Json :=
   | some "uc" => (st, stepUC j)
   | some "q" => (st, stepQty st.reg j)
   | some "pi" => (st, stepPi j)
+  | some "tree" => (st, stepTree j)
   | some op => stepReg st op j
 
 end Pint
